@@ -1,26 +1,40 @@
 (* C12 - specification: eager access.  The same histories run on the arrays
-   themselves (shape and values, or "no such file"), with numpy's orthogonal
+   themselves (shape, data type and values, or "no such file"), with numpy's orthogonal
    selection and assignment (C03): no files, no backend, no laziness.  Written
    independently of the file-array machine of Model.v; Lemmas.v shows that the
    machine computes exactly this. *)
 From CfdmV Require Import Common.Base Common.PySlice C03.Model C12.Model.
 Open Scope Z_scope.
 
-(* shape, and the values when they can be had *)
-Definition vcell := (list Z * option nd)%type.
+(* shape, data type, and the values when they can be had *)
+Definition vcell := (list Z * dt * option nd)%type.
 
-Definition val (dk : disk) (c : cell) : vcell := (cshape c, content dk c).
+Definition vshape (vc : vcell) : list Z := fst (fst vc).
+Definition vdtype (vc : vcell) : dt := snd (fst vc).
+
+(* What eager access to an object sees: for an object on disk, the whole
+   variable read and unpacked - the shape, the data type of that array (not
+   whatever the file array declares), its values. *)
+Definition val (dk : disk) (c : cell) : vcell :=
+  match c with
+  | OnDisk f v sh d =>
+    match dk f v with
+    | Some st => (sh, s_realised st, Some (s_unpacked st))
+    | None => (sh, d, None)
+    end
+  | InMem sh d a => (sh, d, Some a)
+  end.
 
 Definition vget (vc : vcell) (idx : list index) : result vcell :=
-  match parse_indices (fst vc) idx with
+  match parse_indices (vshape vc) idx with
   | Err e => Err e
   | Ok ps =>
     match snd vc with
     | None => Err OtherErr
     | Some a =>
-      match positions_all (fst vc) ps with
+      match positions_all (vshape vc) ps with
       | Err e => Err e
-      | Ok poss => Ok (zshape (map (@length nat) poss), Some (orth_take poss a))
+      | Ok poss => Ok (zshape (map (@length nat) poss), vdtype vc, Some (orth_take poss a))
       end
     end
   end.
@@ -55,7 +69,7 @@ Definition vstep (h : list vcell) (o : op) : list vcell * obs :=
     match nth_error h i with
     | None => (h, OErr OtherErr)
     | Some c => match vreal c with
-                | Ok a => (h, OArray (fst c) (flatten a))
+                | Ok a => (h, OArray (vshape c) (vdtype c) (flatten a))
                 | Err e => (h, OErr e)
                 end
     end
@@ -63,7 +77,7 @@ Definition vstep (h : list vcell) (o : op) : list vcell * obs :=
     match nth_error h i with
     | None => (h, OErr OtherErr)
     | Some c =>
-      let sh := fst c in
+      let sh := vshape c in
       match parse_indices sh idx with
       | Err e => (h, OErr e)
       | Ok _ =>
@@ -72,7 +86,7 @@ Definition vstep (h : list vcell) (o : op) : list vcell * obs :=
         | Ok a =>
           match setitem sh a idx (ones sh) (reshape (ones sh) [v]) with
           | Err e => (h, OErr e)
-          | Ok a' => (set_at i (sh, Some a') h, ONone)
+          | Ok a' => (set_at i (sh, vdtype c, Some a') h, ONone)
           end
         end
       end
@@ -81,20 +95,21 @@ Definition vstep (h : list vcell) (o : op) : list vcell * obs :=
     match nth_error h i with
     | None => (h, OErr OtherErr)
     | Some c =>
-      match vget c (map (fun _ => ISlice (Some 0) (Some 1) (Some 1)) (fst c)) with
+      match vget c (map (fun _ => ISlice (Some 0) (Some 1) (Some 1)) (vshape c)) with
       | Err e => (h, OErr e)
-      | Ok (_, Some a) => match flatten a with
-                          | [x] => (h, OArray [] [x])
-                          | _ => (h, OErr ValueErr)
-                          end
-      | Ok (_, None) => (h, OErr OtherErr)
+      | Ok (_, d, Some a) => match flatten a with
+                             | [x] => (h, OArray [] d [x])
+                             | _ => (h, OErr ValueErr)
+                             end
+      | Ok (_, _, None) => (h, OErr OtherErr)
       end
     end
   | OEq i j =>
     match nth_error h i, nth_error h j with
     | Some c1, Some c2 =>
       if Nat.eqb i j then (h, OBool true)
-      else if negb (list_eqb Z.eqb (fst c1) (fst c2)) then (h, OBool false)
+      else if negb (list_eqb Z.eqb (vshape c1) (vshape c2)) then (h, OBool false)
+      else if negb (dt_eqb (vdtype c1) (vdtype c2)) then (h, OBool false)
       else
         match vreal c1 with
         | Err e => (h, OErr e)
